@@ -78,7 +78,12 @@ def main():
             d = scratch_copy()
             try:
                 if kind == "mutant":
-                    apply_json(json.load(open(path)), d)
+                    try:
+                        apply_json(json.load(open(path)), d)
+                    except ValueError as e:  # the repository text the mutant edits has changed
+                        print("STALE %s %s" % (os.path.relpath(path, HERE), e), flush=True)
+                        failed += 1
+                        continue
                 else:
                     r = subprocess.run(["patch", "-p1", "-d", d, "-i", path], capture_output=True, text=True)
                     if r.returncode:
